@@ -5,7 +5,9 @@
      -> "<id>\tD|<status>|<errclass>|<errmsg>|<line>~<line>..." | "<id>\tSTUCK" | "<id>\tFUEL"
      expr: (i <int>) (b t|f) (s <text>?) (v <slot>) (bin add|sub|mul|div|mod a b) (neg a)
            (cmp lt|le|gt|ge|eq|ne a b) (not a) (and a b) (or a b) (cat a b) (insp a) (call <f> a...)
-     stmt: (set <slot> e) (print e) (if c (s...) (s...)) (while c (s...)) (ret e) (ex e)
+           (nil) (sym <name>) (chr <c>) (new <class> e) (fld) (send recv <name> a...) (list e...)
+     stmt: (set <slot> e) (print e) (if c (s...) (s...)) (while c (s...)) (ret e) (ex e) (for <slot> e (s...))
+     optional 4th section: (classes (c <parent>|- (<name> (m ...))...)...)  class methods: slot 0 = self
    Literal text uses [a-z0-9_] only ('_' stands for a space). *)
 open C09_Backends
 open C06_Int
@@ -93,6 +95,13 @@ let rec expr_of (x : sx) : expr =
   | L [ A "cat"; a; b ] -> ECat (expr_of a, expr_of b)
   | L [ A "insp"; a ] -> EInspect (expr_of a)
   | L (A "call" :: A f :: args) -> ECall (nat_of_int (int_of_string f), List.map expr_of args)
+  | L [ A "nil" ] -> ENil
+  | L [ A "sym"; A t ] -> ESym (coq_string t)
+  | L [ A "chr"; A t ] -> EChar (coq_string t)
+  | L [ A "new"; A c; k ] -> ENew (nat_of_int (int_of_string c), expr_of k)
+  | L [ A "fld" ] -> EField
+  | L (A "send" :: r :: A nm :: args) -> ESend (expr_of r, nat_of_int (int_of_string nm), List.map expr_of args)
+  | L (A "list" :: es) -> EList (List.map expr_of es)
   | _ -> failwith "expr"
 
 let rec stmt_of (x : sx) : stmt =
@@ -103,6 +112,7 @@ let rec stmt_of (x : sx) : stmt =
   | L [ A "while"; c; L b ] -> SWhile (expr_of c, List.map stmt_of b)
   | L [ A "ret"; e ] -> SReturn (expr_of e)
   | L [ A "ex"; e ] -> SExpr (expr_of e)
+  | L [ A "for"; A k; e; L b ] -> SForIn (nat_of_int (int_of_string k), expr_of e, List.map stmt_of b)
   | _ -> failwith "stmt"
 
 let meth_of = function
@@ -111,9 +121,21 @@ let meth_of = function
         m_body = List.map stmt_of b; m_ret = expr_of r }
   | _ -> failwith "meth"
 
+let class_of = function
+  | L (A "c" :: A par :: ms) ->
+      { c_parent = (if par = "-" then None else Some (nat_of_int (int_of_string par)));
+        c_meths = List.map (function
+          | L [ A nm; m ] -> (nat_of_int (int_of_string nm), meth_of m)
+          | _ -> failwith "class method") ms }
+  | _ -> failwith "class"
+
 let prog_of = function
   | L [ A "prog"; L (A "meths" :: ms); L (A "locals" :: ls); L (A "main" :: b) ] ->
-      { p_meths = List.map meth_of ms; p_locals = List.map expr_of ls; p_main = List.map stmt_of b }
+      { p_meths = List.map meth_of ms; p_locals = List.map expr_of ls; p_main = List.map stmt_of b;
+        p_classes = [] }
+  | L [ A "prog"; L (A "meths" :: ms); L (A "locals" :: ls); L (A "main" :: b); L (A "classes" :: cs) ] ->
+      { p_meths = List.map meth_of ms; p_locals = List.map expr_of ls; p_main = List.map stmt_of b;
+        p_classes = List.map class_of cs }
   | _ -> failwith "prog"
 
 let fuel = nat_of_int 30000
